@@ -297,8 +297,8 @@ def install(eng):
 
     # ================================================================== gwf clean (C15)
     eng.contract("gwf.core:Target.protected", self_type=vc.Target, params={"self": vc.Target},
-                 returns=vc.PathSet, returns_expr="Prot(self)", trusted=True, pure=True,
-                 note="set(_norm_paths(working_dir, _flatten(protect))): same Canon as the outputs")
+                 returns=vc.PathSet, returns_expr="Prot(self)", pure=True, uses=["filesets", "ospath"],
+                 serves=["C15"], note="set(_norm_paths(working_dir, _flatten(protect))): the same Canon as the outputs")
     eng.contract("gwf.plugins.clean:_delete_file", params={"path": vc.Path}, modifies=["ghost:fs_removed"],
                  ensures=["forall(lambda p: implies(p in fs_removed, p in old(fs_removed) or p == path), Path)"],
                  serves=["C15"], note="an OSError from os.remove is swallowed: the file then simply stays")
